@@ -22,13 +22,17 @@ def showState (s : State) : String :=
     if s.allow v o sp != 0 then some s!"{v}:{o}:{sp}:{s.allow v o sp}" else none
   let gs := (List.range s.nAcc).map (fun d => s!"{s.gain d}")
   let us := (List.range s.nVal).flatMap fun v => (List.range s.nAcc).filterMap fun d =>
-    let n := (s.ubd.filter (fun u => u.1 == d && u.2.1 == v)).length
-    if n != 0 then some s!"{d}:{v}:{n}" else none
+    let n := s.ubdEntries d v
+    let bal := ((s.ubd.filter (fun u => u.1 == d && u.2.1 == v)).map (fun u => u.2.2.2)).foldl (· + ·) 0
+    if n != 0 then some s!"{d}:{v}:{n}:{bal}" else none
   let rds := (List.range s.nVal).flatMap fun src => (List.range s.nVal).flatMap fun dst => (List.range s.nAcc).filterMap fun d =>
     let n := (s.redel.filter (fun r => r.1 == d && r.2.1 == src && r.2.2.1 == dst)).length
     if n != 0 then some s!"{d}:{src}:{dst}:{n}" else none
   s!"h={s.height} " ++ " ".intercalate vs ++
-    s!" A({",".intercalate al}) G({",".intercalate gs}) U({",".intercalate us}) Rd({",".intercalate rds})"
+    s!" A({",".intercalate al}) G({",".intercalate gs}) U({",".intercalate us}) Rd({",".intercalate rds})" ++
+    -- bank side: bonded pool, not-bonded pool, distribution module account (relative to genesis), community pool
+    -- (relative to genesis, 18 decimals), coins burned
+    s!" P({s.bondedPool},{s.notBondedPool},{s.distrIn - s.distrOut},{(List.range s.nVal).foldl (fun a i => a + (s.vs i).dust) 0},{s.burned})"
 
 def errName (transferLike : Bool) (e : Err) : String :=
   if !transferLike then "err" else
